@@ -175,7 +175,7 @@ def floors(tier):
         f[f"rp:tuner:{kind}"] = 1 if tier == "quick" else 20
     f["rp_after_failure:dill:sync_hb"] = 100 * k
     for kind in ("fifo_random", "hb_stopping", "hb_promotion", "hb_pasha", "hb_cost_promotion", "pbt", "median"):
-        f[f"rp_after_failure:dill:{kind}"] = 10 * k
+        f[f"rp_after_failure:dill:{kind}"] = 5 * k
     for kind in CLONE_KINDS:
         f[f"rp:clone:{kind}"] = 100 * k
         f[f"rp_k0:clone:{kind}"] = 5 * k
